@@ -104,3 +104,8 @@ package tls
 //@   loop 1 unroll 2
 //@   ensures[C05 bynodeid] err == nil && !req.SkipVerification && byNodeId ==>
 //@   |   exists id String :: StHas("nodeinfo", id) && StGet("nodeinfo", id).NodeId == req.NodeId && verifiedBy(StGet("nodeinfo", id), req)
+
+//@ func tls.ServerConfig
+//@   trusted -- body not verified yet (certificate parsing, certificate map, GetCertificate closure)
+//@   ensures[* failclosed] err != nil ==> ret == nil
+//@   ensures[* ok] err == nil ==> ret != nil && fresh(ret) && in != nil
